@@ -13,6 +13,7 @@ import (
 	"flag"
 	"fmt"
 	"github.com/boz/kcache"
+	"math/rand"
 	"os"
 	"sync/atomic"
 	"testing"
@@ -90,6 +91,12 @@ func inflight(n int) int {
 		return m
 	}
 	return n
+}
+
+// reseed makes math/rand's global source (the library draws its refresh fuzz from it) a function of the
+// scenario, so that a scenario replays exactly whether it runs alone or after others
+func reseed(seed uint64, idx int) {
+	rand.Seed(int64(seed)*1000003 + int64(idx))
 }
 
 func settle(hookN *uint64) {
